@@ -441,8 +441,23 @@ def run(chk):
         rows = [r for r in oracle.ROWS if r['sem'].get('cls') in ('load', 'store', 'atomic.load', 'atomic.store',
                                                                   'atomic.rmw', 'atomic.cmpxchg')]
         chk.require(len(rows) == 86, 'oracle lists %d access flavours, expected 86' % len(rows))
+        from .. import concrete_mem as cm
         for row in rows:
             check_function(chk, htu, row, cfg, callees)
+            # second decision: evaluated on concrete bytes with the host's objects assembled big-endian, the function must leave /
+            # return exactly what the little-endian specification prescribes
+            fn = callees[row['name']]
+            if fn not in htu.functions:
+                continue
+            try:
+                bad = cm.refute(htu, fn, row, 'big', small=chk.tier != 'thorough')
+            except cm.Unsupported as e:
+                chk.note('%s: concrete evaluation not applicable (%s)' % (fn, e))
+                continue
+            except pe.PEError as e:
+                bad = 'cannot be evaluated on concrete operands: %s' % e
+            chk.expect(not bad, 'R19.1', '%s@be:concrete' % row['name'], '%s on a big-endian host: %s' % (row['name'], bad),
+                       'runtime/%s@be:bytes' % fn, detail_ok='agrees with the little-endian specification on the concrete family')
         check_bulk(chk, htu, cfg)
     # little-endian configuration: no reversal anywhere
     le = runtime.header('le')
